@@ -125,7 +125,7 @@ where
 impl<R> Arena<R>
 where
     R: for<'a> Rootable<'a>,
-    for<'a> Root<'a, R>: Sized,
+    for<'a> Root<'a, R>: Sized + Collect<'a>,
 {
     /// Create a new arena with the given garbage collector tuning parameters. You must provide a
     /// closure that accepts a `&Mutation<'gc>` and returns the appropriate root.
@@ -168,7 +168,7 @@ where
     ) -> Arena<R2>
     where
         R2: for<'a> Rootable<'a>,
-        for<'a> Root<'a, R2>: Sized,
+        for<'a> Root<'a, R2>: Sized + Collect<'a>,
     {
         self.context.root_barrier();
         let new_root: Root<'static, R2> = unsafe {
@@ -188,7 +188,7 @@ where
     ) -> Result<Arena<R2>, E>
     where
         R2: for<'a> Rootable<'a>,
-        for<'a> Root<'a, R2>: Sized,
+        for<'a> Root<'a, R2>: Sized + Collect<'a>,
     {
         self.context.root_barrier();
         let new_root: Root<'static, R2> = unsafe {
